@@ -89,6 +89,9 @@ func (g *GroupMod) MarshalBinary() (data []byte, err error) {
 	data = append(data, bytes...)
 
 	for _, bkt := range g.Buckets {
+		if g.Command == OFPGC_DELETE {
+			break // Len() does not count buckets for the delete command
+		}
 		bytes, err = bkt.MarshalBinary()
 		data = append(data, bytes...)
 		log.Debugf("Groupmod bucket: %v", bytes)
